@@ -84,7 +84,7 @@ class SmGen(WorldGen):
             self.set_pd(aid)
             return aid
         na = n_atv if n_atv is not None else r.below(3)
-        nv = n_vtb if n_vtb is not None else (1 if r.chance(1, 5) else 0)
+        nv = n_vtb if n_vtb is not None else (1 if (not getattr(self, "no_vtb", False)) and r.chance(1, 5) else 0)
         return self.build_block(parent, n_vtb=nv, n_atv=na)
 
     def make_payloads(self, parent, height, n_vtb, n_atv, n_extra, kb=None, endorsable=None):
@@ -548,6 +548,7 @@ class Script:
         self.lines = []
         self.gens = {}
         self.equal = []       # (id, id, what) answers that must be equal (C01)
+        self.guard = {}       # first id of an equal pair -> (history prefix, (tip line id, candidate)): SP carve-out
         self.modelled = set() # history prefixes whose ops are all modelled
         self.stats = {}
 
@@ -694,36 +695,81 @@ def gen_c20(ctx, sc, n_hist, steps):
         sc.bump("c20_planted_blocks", len(g.planted_blocks))
 
 
-def gen_c01(ctx, sc, n_hist, steps):
+def sp_tie(g, tips):
+    """the property's carve-out: among the VBK blocks delivered by the given ALT chains, are two longest SP forks
+    tied (regtest: work = length, no VTBs in these histories, so no POP score) or do three or more SP forks compete?"""
+    kv = set()
+    for t in tips:
+        if t in g.alt:
+            kv |= set(g.alt[t]["kv"])
+    has_child = {g.vbk[v]["parent"] for v in kv if g.vbk[v]["parent"] in kv}
+    leaves = [v for v in kv if v not in has_child]
+    hmax = max(g.vbk[v]["height"] for v in leaves)
+    return len(leaves) >= 3 or sum(1 for v in leaves if g.vbk[v]["height"] == hmax) >= 2
+
+
+def gen_c01(ctx, sc, n_hist, steps, sp_forks=0):
+    """sp_forks: one history out of `sp_forks` (0 = none) has two competing VBK forks (ATVs only); the comparisons of
+    such a history are guarded by the carve-out of the property text (sc.guard, evaluated on the tips reported by A)"""
     r = ctx.rng
     for k in range(n_hist):
         g = SmGen(r.fork(), small_cfg(r))
         destructive = (k % 3 != 2)
+        spf = bool(sp_forks) and k % sp_forks == sp_forks - 1
         H = SmHistory(g, planted=0, destructive=destructive)
+        fork_tips = None
+        if spf:
+            g.no_vtb = True
         for i in range(steps):
+            if spf and fork_tips is None and i >= steps // 4 and g.vbk[g.vtip]["height"] >= 3:
+                # start a second VBK fork a few blocks behind the tip
+                fp = g.vtip
+                for _ in range(r.range(1, 3)):
+                    fp = g.vbk[fp]["parent"] or fp
+                first = g.vtip
+                g.vtip = fp
+                second = g.mine_vbk(parent=fp)
+                g.vtip = second
+                fork_tips = [first, second]
+                cur = 1
+                sc.bump("c01_sp_fork_histories")
+            if fork_tips is not None:
+                fork_tips[cur] = g.vtip
+                cur = r.below(2)
+                g.vtip = fork_tips[cur]
             H.step()
-            if not destructive and i % 8 == 7:
+            if not destructive and not spf and i % 8 == 7:
                 H.on("sm")
+        if fork_tips is not None:
+            fork_tips[cur] = g.vtip
         pre = "h%d" % len(sc.gens)
-        base = len(g.lines)
 
-        def both(what, *words):
+        def both(what, *words, guard=None):
             ia = len(g.lines) + 1
             g.emit("on A " + " ".join(words))
             g.emit("on B " + " ".join(words))
             sc.equal.append(("%s_c%d" % (pre, ia), "%s_c%d" % (pre, ia + 1), what))
+            if spf:
+                sc.guard["%s_c%d" % (pre, ia)] = (pre, guard)
+
+        def tipline():
+            g.emit("on A tip")
+            return "%s_c%d" % (pre, len(g.lines))
 
         g.emit("twin A B", "ok")
-        both("POP state after the history vs fresh instance shown only the active chain", "obs", "pop")
-        both("payouts", "payouttip")
+        t0 = tipline()
+        both("POP state after the history vs fresh instance shown only the active chain", "obs", "pop", guard=(t0, None))
+        both("payouts", "payouttip", guard=(t0, None))
         ids = sorted(g.alt, key=lambda a: int(a[1:]))
         for _ in range(4):
             c = r.choice(ids)
             g.emit("show A %s" % c)
             g.emit("show B %s" % c)
-            both("comparePopScore verdict against candidate " + c, "cmp", c)
-            both("POP state after comparing with " + c, "obs", "pop")
-            both("payouts", "payouttip")
+            t1 = tipline()
+            both("comparePopScore verdict against candidate " + c, "cmp", c, guard=(t1, c))
+            t2 = tipline()
+            both("POP state after comparing with " + c, "obs", "pop", guard=(t2, None))
+            both("payouts", "payouttip", guard=(t2, None))
         sc.add(g, modelled=False)
         sc.bump("c01_histories")
 
@@ -822,7 +868,7 @@ def run_check(ctx, pid):
                 gen_c01(ctx, sc, 60, 36)
                 gen_corr_honest(ctx, sc, 20, 30)
             else:
-                gen_c01(ctx, sc, 1500, 60)
+                gen_c01(ctx, sc, 1500, 60, sp_forks=5)
                 gen_corr_honest(ctx, sc, 300, 50)
     tgen = time.time() - t0
     lines = sc.lines
@@ -866,10 +912,22 @@ def run_check(ctx, pid):
                               "what": "direct oracle failed on the implementation (%s)" % cat}, False))
     # 3. answers that must be equal (C01: instance with a history vs fresh twin)
     neq = 0
+    carved = set()
+    ncarved = 0
     for a, b, what in sc.equal:
         ra, rb = results.get(a), results.get(b)
         if ra is None or rb is None:
             continue
+        gd = sc.guard.get(a)
+        if gd is not None:
+            gpre, (tid, cand) = gd
+            gg = sc.gens.get(gpre)
+            tipid = results.get(tid)
+            if gpre in carved or gg is None or tipid not in gg.alt or \
+                    sp_tie(gg, [tipid]) or (cand is not None and (sp_tie(gg, [cand]) or sp_tie(gg, [tipid, cand]))):
+                carved.add(gpre)
+                ncarved += 1
+                continue
         neq += 1
         if ra != rb:
             pre = a.rsplit("_", 1)[0]
@@ -970,7 +1028,7 @@ def run_check(ctx, pid):
     ctx.cov["disagreements_checked"] = ncmp
     ctx.cov["traces_validated_against_impl"] = nagree
     ctx.cov["distribution"] = {"histories": nh, "script_lines": len(lines), "op_histogram": ops, "answers": answers,
-                               "generator": sc.stats, "equal_pairs_checked": neq, "oracle_failures": len(oracle),
+                               "generator": sc.stats, "equal_pairs_checked": neq, "equal_pairs_skipped_sp_carve_out": ncarved, "oracle_failures": len(oracle),
                                "crashes": len(crashes), "model_disagreements": len(dis),
                                "gen_s": round(tgen, 1), "harness_s": round(trun, 1)}
     ctx.cov["partial_theorems"] = [t for t in ctx.cov.get("theorems", []) if t.endswith("_partial")]
